@@ -12,6 +12,8 @@
              reset -> outbound sequence number and channel)
   C01-SERIAL TSNs and stream sequence numbers are only compared / advanced through wrap-safe helpers (C17 rule set on
              rtcsctptransport.py) — ordering decisions must not change at the 2^16 / 2^32 wrap
+  C01-ABANDON (rules C06-WHOLE / C06-RECV) abandoning a partially reliable message marks exactly that message; a FORWARD-TSN
+             at the receiver leaves the messages of reliable streams deliverable exactly once, intact, in order
 Does not decide: reassembly/ordering under loss and reordering schedules.
 """
 from __future__ import annotations
@@ -237,3 +239,8 @@ def run(rep: Report, prog: Program, tier: str) -> None:
     # ---------------- C01-SERIAL (shared rule set of C17 on the SCTP module)
     from .common import serial_subrule
     serial_subrule(rep, prog, tier, PROP, "C01-SERIAL", ["rtcsctptransport"], 30, "serial-number discipline (C17 rule set) in rtcsctptransport.py")
+
+    # ---------------- C01-ABANDON (shared with C06): abandoning a partially reliable message never touches another message
+    from .common import import_rules
+    import_rules(rep, prog, tier, PROP, "C01-ABANDON", "C06", ["C06-WHOLE", "C06-RECV"],
+                 "abandonment / FORWARD-TSN handling never loses or blocks messages of other (reliable) channels (rules C06-WHOLE, C06-RECV)", 100)
